@@ -5,6 +5,7 @@
      wstep_shards          exact characterisation of the account part of the world after a step
      wstep_other_shards    every shard other than the executing one is untouched
      wstep_rejected        no execution or a failed execution: no account of any shard changes
+     wrun_other_shards     a shard on which no step of a history executes is unchanged by the history
      wstep_frame           the three facts in one statement, with the footprint of C05_Footprint.v *)
 From EV Require Import Base.Bytes Base.Store Base.Monad gen.Consts Codec.Types Helpers.Helpers
   Ledger.Types Ledger.Env Ledger.Funcs Ledger.Transfers Ledger.World LedgerProofs.Defs LedgerProofs.EnvSpec
@@ -93,6 +94,19 @@ Section WorldFrame.
     exfalso. apply (H o). reflexivity.
   Qed.
 
+  (* over a whole history: a shard on which no step of the history executes is the same at the end *)
+  Fixpoint never_on (w : world) (ops : list wop) (sh' : N) : Prop :=
+    match ops with
+    | [] => True
+    | op :: r => (forall fn i, op_call w op <> Some (sh', fn, i)) /\ never_on (wstep c w op) r sh'
+    end.
+  Theorem wrun_other_shards ops : forall w sh', never_on w ops sh' ->
+    shard_accts (wrun c w ops) sh' = shard_accts w sh'.
+  Proof.
+    induction ops as [|op r IH]; intros w sh' H; [reflexivity|]. destruct H as [H1 H2].
+    rewrite wrun_cons, (IH _ _ H2). apply wstep_other_shards. exact H1.
+  Qed.
+
   Hypothesis Hc : codec_ok (wc_cdc c).
 
   (* the frame of one step over the whole world *)
@@ -163,6 +177,7 @@ End WorldFrame.
 Print Assumptions wstep_shards.
 Print Assumptions wstep_other_shards.
 Print Assumptions wstep_rejected.
+Print Assumptions wrun_other_shards.
 Print Assumptions wstep_frame.
 Print Assumptions wstep_frame_cell.
 Print Assumptions wstep_frame_acct.
